@@ -71,6 +71,7 @@ func (m *RWMutex) Unlock() {
 	m.writer = false
 	vsched.Unblock(m)
 	lg("unlock", m)
+	vsched.Point() // whatever the caller still does after releasing the lock is not part of the critical section
 }
 
 func (m *RWMutex) RLock() {
@@ -104,6 +105,7 @@ func (m *RWMutex) RUnlock() {
 		vsched.Unblock(m)
 	}
 	lg("runlock", m)
+	vsched.Point() // as in Unlock: code after the release can interleave with other threads
 }
 
 // TryLock / TryRLock never block: one scheduling point, then the outcome of the moment
